@@ -23,15 +23,21 @@ OutOf(r) == [do |-> r.do, oe |-> r.oe, stp |-> r.stp]
 
 TInit == RegInit /\ tid \in 1..Len(Logs) /\ l = 1 /\ status = "ok"
 
+\* A record with rst = 1 is a cycle in which the link's clock domain was reset (it is the first record of its
+\* trace: the harness cuts traces there).  The PHY must be reset with the link (RESETB = rsto), and only then.
 TNext == /\ status = "ok"
          /\ l <= Len(Logs[tid])
          /\ LET r == Logs[tid][l] IN
-              /\ RegStep(InOf(r), OutOf(r))
-              /\ status' = IF ~LegalPhy(InOf(r)) THEN "env_illegal_phy"
-                           ELSE IF r.r4 # phyReg[FunctionControlAddr] \/ r.ra # phyReg[OtgControlAddr]
-                                   \/ (X1Addr # NoReg /\ r.p1 # phyReg[X1Addr]) \/ (X2Addr # NoReg /\ r.p2 # phyReg[X2Addr])
-                                THEN "env_phy_models_differ"
-                           ELSE Failing(InOf(r), OutOf(r))
+              IF r.rst = 1
+              THEN /\ status' = IF r.rsto # 1 THEN "resetb_not_asserted_in_reset" ELSE "ok"
+                   /\ UNCHANGED gvars
+              ELSE /\ RegStep(InOf(r), OutOf(r))
+                   /\ status' = IF r.rsto = 1 THEN "resetb_asserted_outside_reset"
+                                ELSE IF ~LegalPhy(InOf(r)) THEN "env_illegal_phy"
+                                ELSE IF r.r4 # phyReg[FunctionControlAddr] \/ r.ra # phyReg[OtgControlAddr]
+                                        \/ (X1Addr # NoReg /\ r.p1 # phyReg[X1Addr]) \/ (X2Addr # NoReg /\ r.p2 # phyReg[X2Addr])
+                                     THEN "env_phy_models_differ"
+                                ELSE Failing(InOf(r), OutOf(r))
          /\ l' = l + 1
          /\ UNCHANGED tid
 
